@@ -18,7 +18,12 @@ View(r, mode) == [id |-> IF InSeq("n", r.fields) THEN r.id ELSE 0,
                   tsd |-> IF mode \in {"stream", "jsonlines"} THEN r.tsd ELSE "-"]
 Views(q, mode) == [i \in DOMAIN q |-> View(q[i], mode)]
 \* verdict: the concatenation of the parts is exactly the specified sequence; no part exceeds the limit
-Contract == /\ ~C.raised
+ContractList == C.mode = "list" =>
+                  /\ ~C.raised
+                  /\ C.listed = ListOut(C.srcs, C.cfg)
+                  /\ C.processed = Len(Sliced(C.srcs, C.cfg))
+Contract == C.mode # "list" =>
+            /\ ~C.raised
             /\ [i \in DOMAIN Flat(C.parts) |-> LET p == Flat(C.parts)[i] IN [id |-> p.id, fields |-> p.fields, src |-> p.src, cls |-> p.cls, tsd |-> p.tsd]]
                  = Views(Exp, C.mode)
             /\ (C.cfg.split > 0 => \A i \in DOMAIN C.parts : Len(C.parts[i]) <= C.cfg.split)
